@@ -136,4 +136,18 @@ theorem C14_tie_fn_freshOCSP (K now : Int) (r : CM.OCSP.Resp)
         have e : r.thisUpdate + K + (nu - r.thisUpdate).tdiv 2 = (r.thisUpdate + (nu - r.thisUpdate).tdiv 2) + K := by omega
         rw [e, hbefore]
 
+/-! ### what the printed definitions mean -/
+
+/-- the definition translated from `currentOCSP` on this run accepts a response iff `now` lies inside its
+validity period (a response without NextUpdate does not expire) -/
+theorem C14_fn_currentOCSP_means (now : Int) (r : CM.OCSP.Resp)
+    (hnu : ∀ nu, r.nextUpdate = some nu → nu ≠ 0) :
+    CM.Gen.Fn.currentOCSP now ⟨r.thisUpdate, r.nextUpdate.getD 0, 0, none⟩ = true ↔
+      r.thisUpdate ≤ now ∧ ∀ nu, r.nextUpdate = some nu → now ≤ nu := by
+  rw [C14_tie_fn_currentOCSP now r hnu]
+  unfold CM.OCSP.current
+  cases hn : r.nextUpdate with
+  | none => simp
+  | some nu => simp
+
 end CM.Tie.FnC14
